@@ -27,6 +27,51 @@ CHECKS = {
              "hypotheses are proved for the executable surrogate. Exact correspondence + law monitor on the implementation.",
         design="5/C11", tech="Coq proof over definitions regenerated from core.py + exact-rational correspondence",
         note=NOTE + "Python's float ** for non-integer exponents is trusted to be positive and monotone."),
+    "C02": dict(
+        text="Theorems over the arc models for every operation sequence: plain/pull-only/push-only arcs keep out-record = "
+             "in-record against any contract-respecting end nodes; queue arcs (QueueArc/DecayArc) satisfy in = out + "
+             "change in transit + decayed + dust for ANY end-node behaviour, with the dust (requests dropped below "
+             "FLOAT_ACCURACY) bounded per request, backflow part of the reply and removed from the in-record; the "
+             "alternative queue arc inside queue tanks loses nothing over any number of close-outs. Refuted part "
+             "(sub-FLOAT_ACCURACY pushes swallowed with their pollutant load) is a recorded known finding. Tie: exact "
+             "operation-sequence correspondence of the hand-written models; implementation-side ledger monitor.",
+        design="5/C02", tech="Coq proof (induction over operation lists, arbitrary end-node oracle) over hand-written models + exact-rational correspondence",
+        note=NOTE + "Scope: arcs as components (all eight classes through Arc/QueueArc/AltQueueArc models; DecayArcAlt only inside DecayQueueTank); model-level runs are monitored by C01/C03 once built."),
+    "C04": dict(
+        text="Theorems: a push/pull over a plain arc between ANY two end nodes meeting the reply contract moves exactly "
+             "offer - reply = record = receiver gain (push) and reply = record = supplier loss (pull), reply between "
+             "nothing and the offer, pull at most what was asked; stores: entered + remainder = offer with the offer's "
+             "composition; queue arcs: the same once due water is counted (ledger theorems). Tank-backed ends are "
+             "proved to meet the contract. Tie: exact correspondence; three-view monitor (sender/record/receiver) after "
+             "each of a sequence of requests.",
+        design="5/C04", tech="Coq proof (contract-parametric) over hand-written models + exact-rational correspondence",
+        note=NOTE + "Scope: component level (all arc classes x {Tank, scripted accept/part/none} ends); other node classes enter through the contract, whose instances for them are not yet proved."),
+    "C05": dict(
+        text="Theorems: for every admissible operation sequence and every prefix, against any contract-respecting ends, "
+             "0 <= flow_in <= capacity for plain, pull-only, push-only and queue arcs (travel-time-averaged admission), "
+             "flow_in is lowered only by a timestep end; in EVERY tank state an unforced push yields level <= "
+             "max(capacity, level before) with entered + returned = offer; queue tanks: the limited level includes "
+             "water still queued (storage = arrived + buckets is an invariant); pulls, evaporation and pollutant pulls "
+             "take at most what is there. Tie: exact correspondence + direct capacity monitor.",
+        design="5/C05", tech="Coq proof (invariants by induction over operation lists) over hand-written models + exact-rational correspondence",
+        note=NOTE + "Arc-level force=True (used nowhere in the library) is outside the arc clauses: a forced over-capacity push makes the spare capacity negative."),
+    "C06": dict(
+        text="Theorems: non-negativity of store contents, arc records, admitted flow and replies is an invariant of every "
+             "tank operation (wet offers), of every operation sequence on plain arcs between contract-respecting ends, "
+             "of queue-tank pushes/pulls/close-outs and of queue-arc admission. Refuted part (QueueArc in-record driven "
+             "negative by a late bounce) is a recorded known finding with a model witness replayed on the "
+             "implementation. IEEE rounding is outside the model.",
+        design="5/C06", tech="Coq proof (invariants over operation lists) over hand-written models + exact-rational correspondence",
+        note=NOTE + "Scope: component level; whole-model runs are scanned by the network monitors once built.", cat="proof"),
+    "C09": dict(
+        text="Theorems: in a queue tank a push with built-in delay n and extra delay t lands in bucket n+t, is usable only "
+             "after exactly n+t close-outs and from then on (impulse-response theorem over any number of close-outs), "
+             "counts towards contents and capacity meanwhile, pulls take only what has arrived, nothing is lost; "
+             "time-area fractions summing to 1 add up to the flux; queue arcs deliver or bounce exactly the requests of "
+             "the direction whose remaining time is 0 (for any far end) and close-out lowers every remaining time by "
+             "one. Tie: exact correspondence + an independent delay-schedule reference on the implementation.",
+        design="5/C09", tech="Coq proof (induction over close-outs and request lists) over hand-written models + exact-rational correspondence",
+        note=NOTE + "DecayQueueTank (no release at close-out) and sub-FLOAT_ACCURACY pushes are outside the QueueTank theorems (hypotheses plain / eps <= vol)."),
 }
 
 ALL = [f"C{n:02d}" for n in range(1, 21)]
